@@ -68,3 +68,19 @@ pub fn format3(fmt: &str, a: u128, b: u64, c: u8) -> (r: String)
 // a str is determined by its characters (vstd only has the other direction)
 pub axiom fn axiom_str_ext(a: &str, b: &str)
     ensures a@ == b@ ==> a == b;
+
+// R16w: write!(f, FMT, v) inside Display::fmt: what was written to the formatter is ghost state
+// of the formatter; the format literal is checked against the width the property demands.
+pub uninterp spec fn written(f: std::fmt::Formatter<'_>) -> Seq<char>;
+
+#[verifier::external_body]
+pub fn write_hex128(f: &mut std::fmt::Formatter<'_>, fmt: &str, v: u128) -> (r: std::fmt::Result)
+    requires fmt@ == "{:032x}"@,
+    ensures r is Ok ==> written(*final(f)) == written(*old(f)) + hexw(v as nat, 32),
+{ unimplemented!() }
+
+#[verifier::external_body]
+pub fn write_hex64(f: &mut std::fmt::Formatter<'_>, fmt: &str, v: u64) -> (r: std::fmt::Result)
+    requires fmt@ == "{:016x}"@,
+    ensures r is Ok ==> written(*final(f)) == written(*old(f)) + hexw(v as nat, 16),
+{ unimplemented!() }
